@@ -1,4 +1,5 @@
 import MesaModel.Proofs.Viz
+import MesaModel.Proofs.VizLayers
 /-!
 # C20 — visualisation data shows each agent once, where it is, as portrayed
 
@@ -326,6 +327,147 @@ theorem C20_V8_ravel_refuted :
     (hexColors L)[0 * L.w + 1]? = some (L.at 1 0) := by
   decide
 
+/-! ## property layers: which layers, over which range, at which level -/
+
+/-- The level of a value over a range `vmin < vmax` (`np.clip(Normalize(vmin, vmax)(v), 0, 1)`, as a fraction of
+    the span): it lies in `[0, 1]`, is 0 exactly for the values up to `vmin` and 1 exactly from `vmax` on. -/
+theorem C20_layer_level_bounds (v vmin vmax : Int) (h : vmin < vmax) :
+    ((normLevel v vmin vmax).den : Int) = vmax - vmin ∧ 0 ≤ (normLevel v vmin vmax).num ∧
+    (normLevel v vmin vmax).num ≤ (normLevel v vmin vmax).den ∧
+    ((normLevel v vmin vmax).num = 0 ↔ v ≤ vmin) ∧
+    ((normLevel v vmin vmax).num = (normLevel v vmin vmax).den ↔ vmax ≤ v) := by
+  have hs : vmax - vmin ≠ 0 := by omega
+  have hd : (((vmax - vmin).toNat : Nat) : Int) = vmax - vmin := Int.toNat_of_nonneg (by omega)
+  have hb := clamp_bounds (a := v - vmin) (lo := 0) (hi := vmax - vmin) (by omega)
+  have h0 := clamp_eq_lo (a := v - vmin) (lo := 0) (hi := vmax - vmin) (by omega)
+  have h1 := clamp_eq_hi (a := v - vmin) (lo := 0) (hi := vmax - vmin) (by omega)
+  simp only [normLevel, if_neg hs]
+  refine ⟨hd, hb.1, by rw [hd]; exact hb.2, ⟨fun h => by have := h0.mp h; omega, fun h => h0.mpr (by omega)⟩, ?_⟩
+  rw [hd]
+  exact ⟨fun h => by have := h1.mp h; omega, fun h => h1.mpr (by omega)⟩
+
+/-- The level is monotone in the value, and strictly monotone between `vmin` and `vmax`: there a larger value
+    is drawn at a strictly higher level, so different values of the layer look different. -/
+theorem C20_layer_level_monotone (vmin vmax : Int) (h : vmin < vmax) {v v' : Int} :
+    (v ≤ v' → (normLevel v vmin vmax).num ≤ (normLevel v' vmin vmax).num) ∧
+    (vmin ≤ v → v < v' → v' ≤ vmax → (normLevel v vmin vmax).num < (normLevel v' vmin vmax).num) ∧
+    (normLevel v vmin vmax).den = (normLevel v' vmin vmax).den := by
+  have hs : vmax - vmin ≠ 0 := by omega
+  simp only [normLevel, if_neg hs]
+  refine ⟨fun hv => clamp_mono (by omega), fun h1 h2 h3 => ?_, trivial⟩
+  rw [clamp_eq_self (by omega) (by omega), clamp_eq_self (by omega) (by omega)]
+  omega
+
+/-- Between `vmin` and `vmax` the level is linear in the value and determines it: `v = vmin + level · (vmax − vmin)`
+    (the numerator of the level is `v − vmin`). -/
+theorem C20_layer_level_determines_value (v vmin vmax : Int) (h : vmin < vmax) (h1 : vmin ≤ v) (h2 : v ≤ vmax) :
+    v = vmin + (normLevel v vmin vmax).num := by
+  have hs : vmax - vmin ≠ 0 := by omega
+  simp only [normLevel, if_neg hs]
+  rw [clamp_eq_self (by omega) (by omega)]
+  omega
+
+/-- Under the automatic range (no `vmin` / `vmax` in the portrayal) the range is the layer's own minimum and
+    maximum, both are values of the layer and every cell lies in the range — so, by the two theorems above, the
+    picture determines the layer. -/
+theorem C20_layer_auto_range (L : Layer) (pt : LayerPortrayal) (hmin : pt.vmin = none) (hmax : pt.vmax = none)
+    {vmin vmax : Int} (hr : layerRange L pt = some (vmin, vmax)) :
+    vmin ∈ L.vals ∧ vmax ∈ L.vals ∧ vmin ≤ vmax ∧ ∀ x y v, L.at x y = some v → vmin ≤ v ∧ v ≤ vmax := by
+  unfold layerRange at hr
+  cases h1 : minOf L.vals <;> cases h2 : maxOf L.vals <;> rw [h1, h2] at hr <;> try (cases hr; done)
+  rename_i lo hi
+  simp only [hmin, hmax, Option.getD_none, Option.some.injEq, Prod.mk.injEq] at hr
+  obtain ⟨rfl, rfl⟩ := hr
+  have ⟨hm1, hm2⟩ := minOf_spec h1
+  have ⟨hM1, hM2⟩ := maxOf_spec h2
+  exact ⟨hm1, hM1, hm2 _ hM1, fun x y v hv => ⟨hm2 v (Layer.at_mem hv), hM2 v (Layer.at_mem hv)⟩⟩
+
+/-- What a drawn layer shows (all four ways of drawing; `Picture.cell`: image row `y`, column `x` for the
+    orthogonal grids — `imshow(…, origin="lower")` —, hexagon `y·w + x` for the hex grids): at the place of cell
+    `(x, y)` the layer's current value `data[x, y]`, normalised over `[vmin, vmax]` (`layerRange`: the portrayal's
+    bounds, else the layer's own minimum / maximum), at opacity `alpha`; the colour bar, if requested, spans the
+    same `[vmin, vmax]`; on hex grids the range is not inverted. -/
+theorem C20_layer_cells_show_their_values {fam : Family} {name : String} {L : Layer} {pt : LayerPortrayal} {d : DrawnLayer}
+    (hw : L.wellFormed = true) (hd : drawLayer fam name L pt = .ok d) {x y : Nat} (hx : x < L.w) (hy : y < L.h) :
+    ∃ v vmin vmax, L.at x y = some v ∧ layerRange L pt = some (vmin, vmax) ∧ d.name = name ∧
+      d.cbar = (if pt.colorbar then some (vmin, vmax) else none) ∧
+      (fam.isHex = true → vmin ≤ vmax) ∧
+      (∀ c, pt.mode = .color c → fam.isHex = false →
+        d.pic.cell L.w x y = some (.opacity (orthoShade pt.alpha v vmin vmax))) ∧
+      (∀ c, pt.mode = .color c → fam.isHex = true →
+        d.pic.cell L.w x y = some (.opacity (hexShade pt.alpha v vmin vmax))) ∧
+      (∀ c, pt.mode = .colormap c → fam.isHex = false →
+        d.pic.cell L.w x y = some (.raw v pt.alpha vmin vmax)) ∧
+      (∀ c, pt.mode = .colormap c → fam.isHex = true →
+        d.pic.cell L.w x y = some (.level (normLevel v vmin vmax) pt.alpha)) ∧
+      pt.mode ≠ .neither :=
+  drawLayer_cell hw hd hx hy
+
+/-- `draw_property_layers` draws exactly the requested layers the space has, once each and in the order of the
+    request (`knownPorts`); names without a layer are skipped; every picture is the one of its own layer and its
+    own portrayal. -/
+theorem C20_layers_drawn_are_the_requested_ones (fam : Family) (layers : List (String × Layer))
+    (ports : List (String × LayerPortrayal)) {ds : List DrawnLayer} (h : drawLayers fam layers ports = .ok ds) :
+    (fam.isOrthogonal = true ∨ fam.isHex = true) ∧
+    ds.map (·.name) = (knownPorts layers ports).map (·.1) ∧
+    ∀ d ∈ ds, ∃ pt L, (d.name, pt) ∈ knownPorts layers ports ∧ layers.lookup d.name = some L ∧
+      drawLayer fam d.name L pt = .ok d := by
+  unfold drawLayers at h
+  split at h
+  · rename_i hg
+    exact ⟨by simpa using hg, drawLayersLoop_spec fam layers ports ds h⟩
+  · cases h
+
+/-- What is refused: a space class without property layers (AttributeError), a layer whose portrayal names neither
+    a colour nor a colormap, a hex layer over an inverted range (ValueError, raised by `Normalize`). -/
+theorem C20_layers_refused (fam : Family) (layers : List (String × Layer)) (name : String) (L : Layer) (pt : LayerPortrayal) :
+    ((fam.isOrthogonal || fam.isHex) = false → ∀ ports, drawLayers fam layers ports = .error .attribute) ∧
+    (pt.mode = .neither → ∃ e, drawLayer fam name L pt = .error e) ∧
+    (fam.isHex = true → ∀ vmin vmax, layerRange L pt = some (vmin, vmax) → vmax < vmin →
+      drawLayer fam name L pt = .error .value) := by
+  refine ⟨fun h ports => by unfold drawLayers; rw [h]; rfl, fun hm => ?_, fun hf vmin vmax hr hlt => ?_⟩
+  · unfold drawLayer
+    cases minOf L.vals <;> cases maxOf L.vals <;> simp [hm]
+  · unfold layerRange at hr
+    unfold drawLayer
+    cases h1 : minOf L.vals <;> cases h2 : maxOf L.vals <;> rw [h1, h2] at hr <;> try (cases hr; done)
+    simp only [Option.some.injEq, Prod.mk.injEq] at hr
+    obtain ⟨rfl, rfl⟩ := hr
+    cases hm : pt.mode <;> simp [hf, hlt]
+
+/-- V13: over a range without extent (a constant layer under the automatic range, or `vmin = vmax` given) every
+    cell is drawn at level 0 — a well-defined picture in all modes, not 0/0. -/
+theorem C20_V13_range_without_extent (alpha : Nat) (v m : Int) :
+    normLevel v m m = ⟨0, 1⟩ ∧ orthoShade alpha v m m = ⟨0, 1⟩ ∧ (hexShade alpha v m m).num = 0 ∧
+    (hexShade alpha v m m).den = 100 := by
+  simp [normLevel, orthoShade, hexShade]
+
+/-- Colour mode, orthogonal against hex grids: inside the range (and for `alpha ≤ 1`) both draw the cell at
+    opacity `level · alpha`; they differ only in where they cut (`np.clip` of the product against `np.clip` of the
+    level): a value above `vmax` is drawn more opaque on an orthogonal grid (witness: value 3 over `[0, 2]` at
+    alpha 0.5: 3/4 against 1/2). -/
+theorem C20_layer_color_modes_agree_in_range (alpha : Nat) (ha : alpha ≤ 100) (v vmin vmax : Int) (h : vmin < vmax)
+    (h1 : vmin ≤ v) (h2 : v ≤ vmax) :
+    orthoShade alpha v vmin vmax = hexShade alpha v vmin vmax ∧
+    (orthoShade alpha v vmin vmax).num = (v - vmin) * alpha ∧
+    ((orthoShade alpha v vmin vmax).den : Int) = (vmax - vmin) * 100 ∧
+    orthoShade 50 3 0 2 = ⟨150, 200⟩ ∧ hexShade 50 3 0 2 = ⟨100, 200⟩ := by
+  have hs : vmax - vmin ≠ 0 := by omega
+  have hp : 0 < vmax - vmin := by omega
+  have hmul : (v - vmin) * (alpha : Int) ≤ (vmax - vmin) * 100 :=
+    Int.mul_le_mul (by omega) (by omega) (by omega) (by omega)
+  have hnn : 0 ≤ (v - vmin) * (alpha : Int) := Int.mul_nonneg (by omega) (by omega)
+  have hden : ((vmax - vmin) * 100).toNat = (vmax - vmin).toNat * 100 := by
+    have : 0 ≤ vmax - vmin := by omega
+    omega
+  refine ⟨?_, ?_, ?_, by decide, by decide⟩
+  · simp only [orthoShade, hexShade, normLevel, if_neg hs, if_pos hp]
+    rw [clamp_eq_self hnn hmul, clamp_eq_self (by omega) (by omega), hden]
+  · simp only [orthoShade, if_neg hs, if_pos hp]
+    exact clamp_eq_self hnn hmul
+  · simp only [orthoShade, if_neg hs, if_pos hp]
+    exact Int.toNat_of_nonneg (by omega)
+
 /-! ## the model-parameter check -/
 
 /-- `_check_model_params` accepts a parameter set exactly when the constructor takes no `*args` (refused by
@@ -410,5 +552,25 @@ example : ¬ bindsByKeyword [⟨"self", .posOrKw, false⟩, ⟨"kwargs", .posOrK
   subst e1; subst e2
   have := hr ⟨"kwargs", .posOrKw, false⟩ (by simp) rfl (by simp) (by simp)
   simp at this
+
+-- property layers: a 2 × 2 grid with two layers; the request names one of them, an unknown layer and the other
+def exLayers : List (String × Layer) := [("a", ⟨2, 2, [0, 1, 2, 3]⟩), ("b", ⟨2, 2, [5, 5, 5, 5]⟩)]
+
+example : drawLayers .moore exLayers
+    [("a", { mode := .color "red", alpha := 50, vmin := some 0, vmax := some 2, colorbar := false }),
+     ("zz", { mode := .neither }), ("b", { mode := .colormap "viridis" })] =
+    .ok [⟨"a", .imgRgba "red" [[some ⟨0, 200⟩, some ⟨100, 200⟩], [some ⟨50, 200⟩, some ⟨150, 200⟩]], none⟩,
+         ⟨"b", .imgCmap "viridis" 100 5 5 [[some 5, some 5], [some 5, some 5]], some (5, 5)⟩] := by decide
+
+example : (drawLayers .hex exLayers [("a", { mode := .color "red", alpha := 50, vmin := some 0, vmax := some 2 })]).toOption.map
+    (·.map fun d => (d.pic.cell 2 1 0, d.pic.cell 2 1 1, d.cbar)) =
+    some [(some (.opacity ⟨100, 200⟩), some (.opacity ⟨100, 200⟩), some (0, 2))] := by decide
+
+example : drawLayers .hex exLayers [("a", { mode := .colormap "viridis", vmin := some 3, vmax := some 1 })] = .error .value := by
+  decide
+
+example : drawLayers .net exLayers [] = .error .attribute := by decide
+
+example : layerRange ⟨2, 2, [4, 1, 7, 3]⟩ { mode := .color "red" } = some (1, 7) := by decide
 
 end Mesa.Viz
